@@ -635,3 +635,130 @@ Proof.
   - f_equal; rewrite map_map; apply map_ext_in; intros l Hl; apply lookup_relabel_in; auto.
   - apply idx_pit_relabel.
 Qed.
+
+(* ------------------------------------------------------------------ set_fixed_node_entries: code path = specification *)
+Lemma sum_pairs_ones l : forall juncts,
+  sum_pairs 0%Z Z.add l (combine juncts (map (fun _ : Z => 1%Z) juncts)) = Z.of_nat (count_occ Z.eq_dec juncts l).
+Proof.
+  induction juncts as [|j juncts IH]; [reflexivity|].
+  change (combine (j :: juncts) (map (fun _ : Z => 1%Z) (j :: juncts))) with
+    ((j, 1%Z) :: combine juncts (map (fun _ : Z => 1%Z) juncts)).
+  change (sum_pairs 0%Z Z.add l ((j, 1%Z) :: combine juncts (map (fun _ : Z => 1%Z) juncts))) with
+    (if (j =? l)%Z then (1 + sum_pairs 0%Z Z.add l (combine juncts (map (fun _ : Z => 1%Z) juncts)))%Z
+     else sum_pairs 0%Z Z.add l (combine juncts (map (fun _ : Z => 1%Z) juncts))).
+  rewrite IH. simpl count_occ.
+  destruct (Z.eq_dec j l) as [E|NE]; destruct (Z.eqb_spec j l); try contradiction; lia.
+Qed.
+
+Lemma ssorted_NoDup (l : list Z) : StronglySorted Z.lt l -> NoDup l.
+Proof.
+  induction 1 as [|a l Hs IH Hall]; constructor; auto.
+  intro Hin. rewrite Forall_forall in Hall. specialize (Hall _ Hin). lia.
+Qed.
+
+Lemma NoDup_map_inj_in {X Y} (f : X -> Y) (l : list X) :
+  (forall a b, In a l -> In b l -> f a = f b -> a = b) -> NoDup l -> NoDup (map f l).
+Proof.
+  induction l as [|x l IH]; intros Hinj Hnd; simpl; constructor.
+  - inversion Hnd; subst. intro Hin. apply in_map_iff in Hin. destruct Hin as [y [E Hy]].
+    assert (y = x) by (apply Hinj; simpl; auto). subst. contradiction.
+  - inversion Hnd; subst. apply IH; auto. intros; apply Hinj; simpl; auto.
+Qed.
+
+Lemma index_assign_length {V} : forall pt (W o : list V),
+  (forall p, In p pt -> p < length o) -> length (index_assign pt W o) = length o.
+Proof.
+  induction pt as [|p pt IH]; intros W o H; [destruct W; reflexivity|].
+  destruct W as [|w W]; [reflexivity|].
+  change (index_assign (p :: pt) (w :: W) o) with (index_assign pt W (upd o p w)).
+  rewrite IH; [apply upd_length; apply H; simpl; auto|].
+  intros q Hq. rewrite upd_length by (apply H; simpl; auto). apply H. simpl; auto.
+Qed.
+
+Lemma pos_of_label js l : NoDup js -> In l js ->
+  exists r, r < length js /\ nth r js 0%Z = l /\ Z.to_nat (sget (mk_index_lookup js 0) l) = r.
+Proof.
+  intros Hnd Hin. apply In_nth with (d := 0%Z) in Hin. destruct Hin as [r [Hr E]].
+  exists r. repeat split; auto. rewrite <- E. rewrite lookup_hit by auto. simpl. now rewrite Nat2Z.id.
+Qed.
+
+(* for every duplicate-free non-negative junction labelling in any row order, any fixing junctions (with repeats) and
+   numba on or off: after set_fixed_node_entries the junction in table row r holds the mean of the values given for ITS
+   OWN label and the number of elements fixing it; rows of other junctions are untouched *)
+Theorem fixed_code_eq_spec (use_numba : bool) js juncts vals old :
+  NoDup js -> (forall l, In l js -> (0 <= l)%Z) -> (forall j, In j juncts -> In j js) ->
+  length vals = length juncts -> length old = length js ->
+  fixed_code use_numba js juncts vals old = fixed_spec js juncts vals old.
+Proof.
+  intros Hnd Hnn Hsub Hv Ho.
+  unfold fixed_code, fixed_spec, sbg_cols_Z. cbn [fst snd map nth].
+  assert (Hk : forall k, In k juncts -> (0 <= k)%Z) by (intros; apply Hnn, Hsub; auto).
+  rewrite !(sbg_model_order_spec 0%Z 1%Z Z.add Z.mul Z.sub Z.opp InitialRing.Zth) by
+    (auto; rewrite ?repeat_length, ?map_length; auto).
+  unfold sbg_spec. cbn [fst snd].
+  set (K := distinct_sorted juncts).
+  set (pos := fun k : Z => Z.to_nat (sget (mk_index_lookup js 0) k)).
+  set (cnt := fun l : Z => Z.of_nat (count_occ Z.eq_dec juncts l)).
+  set (sm := fun l : Z => sum_pairs 0%Z Z.add l (combine juncts vals)).
+  assert (HK : forall k, In k K <-> In k juncts) by (intros; apply distinct_sorted_in).
+  assert (HKnd : NoDup K) by (apply ssorted_NoDup, distinct_sorted_sorted).
+  assert (Hnum : map (fun k => sum_pairs 0%Z Z.add k (combine juncts (map (fun _ : Z => 1%Z) juncts))) K = map cnt K)
+    by (apply map_ext; intros; apply sum_pairs_ones).
+  rewrite Hnum. fold sm.
+  assert (Hpos : forall k, In k K -> pos k < length js /\ nth (pos k) js 0%Z = k).
+  { intros k Hk'. destruct (pos_of_label js k Hnd (Hsub _ (proj1 (HK k) Hk'))) as [r [Hr [E Ep]]].
+    unfold pos. rewrite Ep. auto. }
+  assert (Hind : NoDup (map pos K)).
+  { apply NoDup_map_inj_in; auto. intros a b Ha Hb E.
+    destruct (Hpos a Ha) as [_ Ea], (Hpos b Hb) as [_ Eb]. rewrite <- Ea, <- Eb, E. reflexivity. }
+  assert (Hlt : forall (X : Type) (o : list X), length o = length js -> forall p, In p (map pos K) -> p < length o).
+  { intros X o Lo p Hp. apply in_map_iff in Hp. destruct Hp as [k [<- Hk']]. rewrite Lo. apply Hpos; auto. }
+  (* row-wise *)
+  assert (Hrow : forall (W : list Z) (o : list Z) (g : Z -> Z), length o = length js -> W = map g K ->
+            index_assign (map pos K) W o =
+            map (fun lo : Z * Z => if (cnt (fst lo) =? 0)%Z then snd lo else g (fst lo)) (combine js o)).
+  { intros W o g Lo EW. apply nth_ext with (d := 0%Z) (d' := 0%Z).
+    - rewrite map_length, combine_length, Lo, Nat.min_id.
+      rewrite index_assign_length by (intros p Hp; eapply Hlt; eauto). exact Lo.
+    - intros r Hr.
+      assert (Lia : length (index_assign (map pos K) W o) = length js).
+      { rewrite index_assign_length by (intros p Hp; eapply Hlt; eauto). exact Lo. }
+      rewrite Lia in Hr.
+      rewrite (nth_map_lt2 _ (combine js o) r 0%Z (0%Z, 0%Z)) by (rewrite combine_length; lia).
+      rewrite combine_nth by lia. cbn [fst snd].
+      destruct (index_assign_nth 0%Z (map pos K) W o r Hind) as [H1 H2].
+      { subst W. now rewrite !map_length. }
+      { intros p Hp. eapply Hlt; eauto. }
+      set (l := nth r js 0%Z).
+      destruct (in_dec Z.eq_dec l juncts) as [Hin|Hnin].
+      + assert (HinK : In l K) by (apply HK; auto).
+        apply In_nth with (d := 0%Z) in HinK. destruct HinK as [j [Hj Ej]].
+        assert (Epos : nth j (map pos K) 0 = r).
+        { rewrite (nth_map_lt2 pos K j 0 0%Z) by auto. rewrite Ej.
+          destruct (pos_of_label js l Hnd (Hsub _ Hin)) as [r' [Hr' [E' Ep]]]. unfold pos. rewrite Ep.
+          apply (proj1 (NoDup_nth js 0%Z) Hnd); auto. }
+        rewrite (H1 j) by (rewrite ?map_length; auto).
+        subst W. rewrite (nth_map_lt2 g K j 0%Z 0%Z) by auto. rewrite Ej.
+        assert (cnt l <> 0%Z).
+        { unfold cnt. pose proof (proj1 (count_occ_In Z.eq_dec juncts l) Hin). lia. }
+        destruct (Z.eqb_spec (cnt l) 0); [contradiction|reflexivity].
+      + rewrite H2.
+        * assert (cnt l = 0%Z) by (unfold cnt; rewrite (proj1 (count_occ_not_In Z.eq_dec juncts l) Hnin); reflexivity).
+          rewrite H. reflexivity.
+        * intro Hin. apply in_map_iff in Hin. destruct Hin as [k [Ek Hk']].
+          destruct (Hpos k Hk') as [_ Ek']. apply Hnin. apply HK. rewrite Ek in Ek'. unfold l. rewrite Ek'. exact Hk'. }
+  f_equal.
+  - rewrite (Hrow _ old (fun k => (sm k / cnt k)%Z) Ho).
+    + reflexivity.
+    + rewrite <- (map_map (fun k => (sm k, cnt k)) (fun p : Z * Z => (fst p / snd p)%Z)).
+      f_equal. clear. induction K; simpl; auto. now f_equal.
+  - rewrite (Hrow (map cnt K) (map (fun _ : Z => 0%Z) old) cnt) by (rewrite ?map_length; auto).
+    apply nth_ext with (d := 0%Z) (d' := 0%Z).
+    + rewrite !map_length, combine_length, map_length. lia.
+    + intros r Hr. rewrite map_length, combine_length, map_length in Hr.
+      rewrite (nth_map_lt2 _ (combine js (map (fun _ : Z => 0%Z) old)) r 0%Z (0%Z, 0%Z)) by (rewrite combine_length, map_length; lia).
+      rewrite combine_nth by (rewrite map_length; lia). cbn [fst snd].
+      rewrite (nth_map_lt2 cnt js r 0%Z 0%Z) by lia.
+      rewrite (nth_map_lt2 (fun _ : Z => 0%Z) old r 0%Z 0%Z) by lia.
+      destruct (Z.eqb_spec (cnt (nth r js 0%Z)) 0); auto.
+Qed.
